@@ -598,6 +598,17 @@ pub fn run_case(case: &Case, tag: &str, stats: &mut Stats) -> Vec<Violation> {
                     before.push((name, content));
                 }
                 stats.bump("fault.fs.stale_files_planted");
+                // leftovers of an earlier batch *inside* the sample range (a corpus directory
+                // regenerated in place): a much longer and a much shorter old 0.pkl / 1.pkl / last
+                // one must be replaced by exactly the new bytes
+                for (i, len) in [(0usize, 200_000usize), (1, 1), (samples.saturating_sub(1), 70_000)] {
+                    if i < *samples && !faults.iter().any(|(k, _)| *k == i) {
+                        let mut old = b"stale-old-sample ".repeat(len / 17 + 1);
+                        old.truncate(len);
+                        let _ = std::fs::write(out_dir.join(format!("{}.pkl", i)), &old);
+                    }
+                }
+                stats.bump("fault.fs.stale_longer_and_shorter_samples_in_range");
             }
             for (k, f) in faults {
                 let p = out_dir.join(format!("{}.pkl", k));
